@@ -57,6 +57,183 @@ def cursor_parts(buf):
     return set()
 
 
+def _content_vars(f):
+    """locals whose value is read out of a buffer: `c = buf[i]`, `c = *p`, and locals computed from those"""
+    content = set()
+    def reads_content(e):
+        for x in e.walk():
+            if x['k'] == 'ArraySubscriptExpr' or (x['k'] == 'UnaryOperator' and x.get('op') == '*'):
+                par = x.parent
+                if par is not None and par['k'] == 'UnaryOperator' and par.get('op') == '&':
+                    continue       # &buf[k] is an address handed to a reader, not a value read out of the buffer
+                return True
+            if x['k'] == 'DeclRefExpr' and x.get('d') in content:
+                return True
+        return False
+    changed = True
+    while changed:
+        changed = False
+        for n in f.walk():
+            if n['k'] == 'VarDecl' and n['ch'] and n['d'] not in content and not n.type().rstrip().endswith(('*', '&')) and reads_content(n['ch'][0]):
+                content.add(n['d'])
+                changed = True
+    return content, reads_content
+
+
+def stream_carry_instances(f):
+    """[(VarDecl of the local, loop header block, defining assignment, packet_mode?)]: a scalar local that is initialised with a constant outside a loop, assigned inside the loop from the
+    *content* of the received bytes, and read in the loop before it is assigned in that iteration: parser state carried from byte to byte.  In a stream gateway such state must survive
+    the end of one read (be a member); in packet mode every packet is self-contained and a local is right."""
+    out = []
+    content, reads_content = _content_vars(f)
+    decls = {n['d']: n for n in f.walk() if n['k'] == 'VarDecl' and n['ch'] and 'v' in A.strip_casts(n['ch'][0]) and re.match(r'^(const )?(bool|_Bool|char|int|unsigned int|unsigned char|short|long|unsigned long|unsigned short|muscle::\w+)$', n.type().strip())}
+    if not decls:
+        return out
+    for (h, body) in C.natural_loops(f):
+        for d, vd in decls.items():
+            vp = f.pos(vd['i'])
+            if vp is None or vp[0] in body:
+                continue           # declared inside the loop body: re-initialised every iteration, not carried
+            defs, uses = [], []
+            for b in body:
+                for idx, e in enumerate(f.blocks[b].elems):
+                    if not isinstance(e, int):
+                        continue
+                    x = f.nodes.get(e)
+                    if x is None:
+                        continue
+                    if x['k'] in ('BinaryOperator', 'CompoundAssignOperator') and x.get('op') in A.ASSIGN_OPS and A.strip_casts(x['ch'][0]).get('d') == d:
+                        if reads_content(x['ch'][1]):
+                            defs.append((x, (b, idx)))
+                    elif x['k'] == 'DeclRefExpr' and x.get('d') == d:
+                        par = x.parent
+                        if par is not None and par['k'] in ('BinaryOperator',) and par.get('op') == '=' and par['ch'][0] is x:
+                            continue
+                        uses.append((x, (b, idx)))
+            if not defs or not uses:
+                continue
+            alldefpts = set(p for (_, p) in defs)
+            carried = [u for (u, up) in uses if C.can_reach(f, (h, -1), set([up]), avoid_points=alldefpts) or up[0] == h]
+            if not carried:
+                continue
+            packet = False
+            for (c, truth) in C.guards_of_block(f, h):
+                cn = f.nodes.get(c)
+                if cn is None:
+                    continue
+                n, pol = P.strip_not(cn)
+                mention = False
+                for x in n.walk():
+                    if x.is_call() and (x.get('q') or '').endswith('::GetMaximumPacketSize'):
+                        mention = True
+                    if x['k'] == 'DeclRefExpr' and 'd' in x:
+                        for v in f.walk():
+                            if v['k'] == 'VarDecl' and v['d'] == x['d'] and v['ch'] and any(y.is_call() and (y.get('q') or '').endswith('::GetMaximumPacketSize') for y in v['ch'][0].walk()):
+                                mention = True
+                if mention and ((n['k'] == 'BinaryOperator' and n.get('op') in ('>', '!=') and truth == pol) or (n['k'] == 'BinaryOperator' and n.get('op') == '==' and truth != pol) or (n['k'] != 'BinaryOperator' and truth == pol)):
+                    packet = True
+            out.append((vd, h, defs[0][0], packet))
+    return out
+
+
+def stream_carry_rule(res, fx):
+    res.rule('STREAM-CARRY', 'in the stream-mode input path of a gateway, parser state that is derived from the content of the received bytes and carried from one byte to the next lives in a member, '
+                             'not in a local that is re-initialised on every read (otherwise the result depends on where the reads cut the stream); packet mode is exempt', floor=6)
+    # the rule is tested on every run against an example under /verif (one function that must be flagged, one that must not), independent of /repo
+    from msa import facts as F
+    import os
+    exdir = os.path.join(F.VERIF, 'examples')
+    ex = F.load(['C03_stream_carry.cpp'], repo=exdir, fn_regex='.*')
+    pos = [f for f in ex.funcs.values() if f.full and f.q.endswith('Lossy::DoInputImplementation')]
+    neg = [f for f in ex.funcs.values() if f.full and f.q.endswith('Careful::DoInputImplementation')]
+    if not pos or not neg or not [i for i in stream_carry_instances(pos[0]) if not i[3]] or [i for i in stream_carry_instances(neg[0]) if not i[3]]:
+        raise AnalysisBroken('STREAM-CARRY: the self-check example under /verif/examples is not classified as expected (rule matcher broken)')
+    n_exempt = 0
+    for f in sorted((f for f in fx.funcs.values() if f.full and f.file.startswith('iogateway/') and f.q.endswith('::DoInputImplementation')), key=lambda f: (f.file, f.line)):
+        inst = stream_carry_instances(f)
+        bad = [i for i in inst if not i[3]]
+        n_exempt += len(inst) - len(bad)
+        res.ob('STREAM-CARRY', f.where(), '%s: no content-derived loop-carried local in stream mode' % f.q, not bad, function=f.q, key='STREAM-CARRY|%s|%s' % (f.q, bad[0][0].get('n') if bad else ''),
+               how='%d packet-mode instance(s) exempt' % (len(inst) - len(bad)),
+               message='%s: local `%s` (line %s) is set from the content of the received bytes at line %s and read again for the next byte, but it is re-initialised on every call: when a read ends '
+                       'between the two bytes the state is lost, so the delivered sequence depends on the segmentation' % (f.q, bad[0][0].get('n'), bad[0][0].get('l'), bad[0][2].get('l')) if bad else None)
+    res.extra['stream_carry_packet_mode_exempt'] = n_exempt
+
+
+def codec_step_rule(res, fx):
+    """A zlib stream whose Messages depend on each other advances on both sides with every Message: what Deflate() consumed must be what is sent."""
+    res.rule('CODEC-STEP', 'after a successful ZLibCodec::Deflate() in dependent mode (independent flag not literally true) the deflated buffer becomes the outgoing buffer and the frame is tagged with the zlib '
+                           'encoding on every path; otherwise the sender codec has consumed a Message the receiver codec never sees', floor=2)
+    n = 0
+    for f in sorted((f for f in fx.funcs.values() if f.full and f.file.startswith('iogateway/')), key=lambda f: (f.file, f.line)):
+        for c in P.calls(f, r'^muscle::ZLibCodec::Deflate$'):
+            a = c.args()
+            ind = [x for x in a if x['k'] == 'CXXBoolLiteralExpr' or (x.type() == 'bool' and 'v' in x)]
+            if any(x.get('v') in (1, True) for x in ind):
+                continue           # every packet is deflated independently: dropping a deflated result desynchronises nothing
+            holder = None
+            for v in f.walk():
+                if v['k'] == 'VarDecl' and v['ch'] and c in list(v['ch'][0].walk()):
+                    holder = v
+            rets = [r for r in f.walk() if r['k'] == 'ReturnStmt' and r['ch']]
+            outvars = set(A.strip_casts(x).get('d') for r in rets for x in r['ch'][0].walk() if x['k'] == 'DeclRefExpr' and 'd' in x)
+            n += 1
+            if holder is None or not outvars:
+                res.ob('CODEC-STEP', f.where(c), '%s: deflated result is kept' % f.q, False, function=f.q, key='CODEC-STEP|%s|holder' % f.q, message='%s: the result of Deflate() is not held in a local / no returned buffer variable' % f.q)
+                continue
+            moves = []
+            for x in f.walk():
+                if x['k'] == 'CXXOperatorCallExpr' and (x.get('q') or '').endswith('::operator=') and len(x['ch']) >= 3 and A.strip_casts(x['ch'][1]).get('d') in outvars \
+                        and any(y['k'] == 'DeclRefExpr' and y.get('d') == holder['d'] for y in x['ch'][2].walk()):
+                    moves.append(x)
+            encs = [x for x in f.walk() if x['k'] == 'BinaryOperator' and x.get('op') == '=' and any('ZLIB' in (y.get('n') or '') for y in x['ch'][1].walk())]
+            # escape: the branch on which the deflated buffer is NULL (Deflate failed)
+            esc = set()
+            for blk in f.blocks.values():
+                if blk.cond is None or blk.cond not in f.nodes or len(blk.succ) != 2:
+                    continue
+                cn, pol = P.strip_not(f.nodes[blk.cond])
+                if any(y['k'] == 'DeclRefExpr' and y.get('d') == holder['d'] for y in cn.walk()) and P.is_pointerish(cn):
+                    esc.add((blk.b, 1 if pol else 0))
+            ok1, path = P.must_follow(f, holder, moves, escapes=esc) if moves else (False, None)
+            ok2, _ = P.must_follow(f, holder, encs, escapes=esc) if encs else (False, None)
+            res.ob('CODEC-STEP', f.where(c), '%s: a non-NULL Deflate() result always becomes the outgoing buffer and sets the zlib encoding word' % f.q, ok1 and ok2, function=f.q,
+                   how='buffer taken at line %s, encoding set at line %s' % (moves[0].get('l') if moves else '?', encs[0].get('l') if encs else '?'), key='CODEC-STEP|%s|deflate-used' % f.q,
+                   message='%s: a path from a successful dependent-mode Deflate() reaches the return without sending the deflated buffer (or without tagging the frame as zlib): the sender\'s zlib stream '
+                           'has advanced past a Message the receiver never inflates, so the next compressed Message fails to decode' % f.q)
+    if n < 2:
+        raise AnalysisBroken('CODEC-STEP: %d dependent-mode Deflate() sites found, expected the stream gateway and the templating gateway' % n)
+
+
+def template_lru_rule(res, fx):
+    res.rule('TEMPLATE-LRU', 'TemplatingMessageIOGateway: sender and receiver apply the same order-affecting operations to their template caches (hit: GetAndMoveToFront; new template: PutAtFront, tally += size, '
+                             'TrimLRUCache on the own table and tally), so both evict the same templates', floor=3)
+    w = fx.fn1('muscle::TemplatingMessageIOGateway::FlattenHeaderAndMessage')
+    r = fx.fn1('muscle::TemplatingMessageIOGateway::UnflattenHeaderAndMessage')
+    def ops(f, table):
+        out = {}
+        for c in f.walk():
+            if c['k'] == 'CXXMemberCallExpr' and c.receiver() is not None and A.strip_casts(c.receiver()).get('n') == table:
+                m = (c.get('q') or '').split('::')[-1]
+                const = bool(c.get('cm'))
+                out[m] = const
+        return out
+    wo, ro = ops(w, '_outgoingTemplates'), ops(r, '_incomingTemplates')
+    wm = set(m for m, const in wo.items() if not const)
+    rm = set(m for m, const in ro.items() if not const) - set(['Remove'])     # receiver-only: defensive removal of a stale template with the same id before PutAtFront (no-op while in step)
+    res.ob('TEMPLATE-LRU', r.where(), 'same set of cache-mutating Hashtable methods on both sides', wm == rm and 'GetAndMoveToFront' in wm, how='sender %s, receiver %s' % (sorted(wm), sorted(rm)), function=r.q,
+           key='TEMPLATE-LRU|ops', message='the template caches are maintained differently: sender calls %s on _outgoingTemplates, receiver calls %s on _incomingTemplates (non-const methods); '
+                                           'their LRU orders diverge and they evict different templates, after which a payload-only Message names a template the receiver has dropped' % (sorted(wm), sorted(rm)))
+    for (f, table, tally) in ((w, '_outgoingTemplates', '_outgoingTemplatesTotalSizeBytes'), (r, '_incomingTemplates', '_incomingTemplatesTotalSizeBytes')):
+        trims = [c for c in P.calls(f, r'::TrimLRUCache$')]
+        ok = bool(trims) and all(len(c.args()) >= 2 and A.strip_casts(c.args()[0]).get('n') == table and A.strip_casts(c.args()[1]).get('n') == tally for c in trims)
+        puts = [c for c in f.walk() if c['k'] == 'CXXMemberCallExpr' and (c.get('q') or '').endswith('::PutAtFront') and c.receiver() is not None and A.strip_casts(c.receiver()).get('n') == table]
+        adds = [x for x in f.walk() if x['k'] == 'CompoundAssignOperator' and x.get('op') == '+=' and A.strip_casts(x['ch'][0]).get('n') == tally]
+        ok = ok and bool(puts) and bool(adds) and all(P.must_follow(f, p_, trims, escapes=P.escape_edges(f))[0] for p_ in puts) and all(P.must_follow(f, p_, adds, escapes=P.escape_edges(f))[0] for p_ in puts)
+        res.ob('TEMPLATE-LRU', f.where(), '%s: PutAtFront on %s is followed by %s += size and TrimLRUCache(%s, %s)' % (f.q.split('::')[-1], table, tally, table, tally), ok, function=f.q,
+               key='TEMPLATE-LRU|%s|put-trim' % f.q, message='%s: a new template is not followed by the size tally update and TrimLRUCache on its own table/tally: the two caches no longer hold the same set' % f.q)
+
+
 def run(res, tier):
     units = [u for u in library_units() if u.startswith('iogateway/')] + ['lang/c/minimessage/MiniMessageGateway.c', 'lang/c/micromessage/MicroMessageGateway.c']
     fx = common.load_units(res, units, fn_regex=r'.*(IOGateway|^MGDo|^UGDo|^MG|^UG).*')
@@ -222,6 +399,9 @@ def run(res, tier):
         rets = [n for n in hs[0].walk() if n['k'] == 'ReturnStmt']
         v = rets[0]['ch'][0].get('v') if rets and rets[0]['ch'] else None
         res.ob('FRAME', hs[0].where(), 'MessageIOGateway::GetHeaderSize() == 8', v == 8, how=str(v), function=hs[0].q, key='FRAME|GetHeaderSize', message='GetHeaderSize() is %s, the frame is two 32-bit words' % v)
+    stream_carry_rule(res, fx)
+    codec_step_rule(res, fx)
+    template_lru_rule(res, fx)
     res.explanation = ('Static decision of the short-transfer discipline of the stream gateways: %d transfer sites whose buffer argument is base+cursor were found in iogateway/*.cpp and the two C gateways; at each '
                        'the result is kept and every later update of the cursor / remaining budget is data-dependent on the returned count and not on the requested size; the stream branch delivers only a complete '
                        'buffer; the 8-byte frame has the same layout on the write and read side. Behaviour for concrete segmentations (CR at a read boundary, 2048-byte scratch boundary), zlib dictionary carry-over, '
